@@ -259,8 +259,7 @@ class odict(dict):
             raise ValueError('other must be an odict')
 
         if other is self:
-            #raise ValueError('other cannot be the same odict')
-            pass #updating with self makes no changes
+            return #updating with self makes no changes
 
         dict.update(self, other)
         keys = self._keys
